@@ -140,6 +140,10 @@ class C17(Prop):
         rest = [s for k in kinds for s in by_kind.get(k, [])[per:]]
         rng.shuffle(rest)
         bad += rest[:max(0, n_bad - len(bad))]
+        # characters that are white space for `str::trim` / `char::is_whitespace` but not for the pattern
+        # grammar (which pads with space, tab, CR, LF only), at either end of an otherwise valid pattern
+        for ch in ("\u00a0", "\u000c", "\u000b", "\u0085", "\u2009", "\u3000", "\u2028"):
+            bad += ["55 8B EC" + ch, ch + "55 8B EC", "55 " + ch + " 8B"]
         return cands, bad
 
     def _batch(self, rng, n_valid, n_bad, with_literals, impl_bin, model_bin):
@@ -156,7 +160,7 @@ class C17(Prop):
         res = macrocase.run_batch(items)
         viol += res["violations"]
         det = res["details"]
-        n_ok_strings = n_err_strings = 0
+        n_ok_strings = n_err_strings = n_reworded = 0
         kinds_seen = set()
         for k, s in enumerate(strings):
             tag = "pattern %r (literal %s)" % (s[:200], lits[k][:250])
@@ -185,9 +189,12 @@ class C17(Prop):
                 msgs = det["rejected"].get(k)
                 if m:
                     kinds_seen.add(m.group(1))
-                if not m or not msgs or not macrocase.reason_matches("InvalidPattern(%s,%s)" % (m.group(1), m.group(2)),
-                                                                      [("proc macro panicked", p) for p in msgs]):
+                # "a string the run-time parser rejects does not compile": the compile error is what
+                # counts, its wording (kind text, position format) is diagnostics
+                if not m or not msgs:
                     viol.append("%s: run-time parser gives %s, the macro's compile error is %s" % (tag, ia[:200], msgs))
+                elif not macrocase.reason_matches("InvalidPattern(%s,%s)" % (m.group(1), m.group(2)), [("proc macro panicked", p) for p in msgs]):
+                    n_reworded += 1
         # literal-level cases: only the generic checks of run_batch apply; make sure they were really exercised
         nlit = 0
         for k in range(len(lits), len(items)):
@@ -197,7 +204,7 @@ class C17(Prop):
                 pass    # a violation was already recorded by run_batch
         stats = {"literals": len(items), "valid_strings": len(valid), "rejected_strings": len(bad), "literal_cases": len(extra),
                  "literal_cases_exercised": nlit, "compiled": res["compiled"], "rejected": res["rejected"], "skipped": res["skipped"],
-                 "builds": res["builds"], "strings_ok": n_ok_strings, "strings_err": n_err_strings, "error_kinds": sorted(kinds_seen),
+                 "builds": res["builds"], "strings_ok": n_ok_strings, "strings_err": n_err_strings, "compile_errors_worded_differently": n_reworded, "error_kinds": sorted(kinds_seen),
                  "suffixed_compiled": [items[i] for i in det["suffixed"] if i in det["compiled"]],
                  "rustc_lexer_rejects": [items[i][:80] for i in det["rustc_lexer_rejects"]], "batch_wall_s": res["wall_s"]}
         return viol, stats
